@@ -122,6 +122,23 @@ func (it *Interp) strEq(a, b *StrV) *Term {
 		}
 		return out
 	}
+	// leading bytes fixed by construction (format literals, literal operands, structured bytes) that differ: unequal
+	if pa, ca, ok := it.leading(a); ok {
+		if pb, cb, ok := it.leading(b); ok {
+			n := len(pa)
+			if len(pb) < n {
+				n = len(pb)
+			}
+			for i := 0; i < n; i++ {
+				if pa[i] >= 0 && pb[i] >= 0 && pa[i] != pb[i] {
+					return TFalse
+				}
+			}
+			if (ca && len(pb) > len(pa)) || (cb && len(pa) > len(pb)) {
+				return TFalse // one is completely known and shorter than the other's known part
+			}
+		}
+	}
 	ta, tb := it.toA(a), it.toA(b)
 	// make sure both have length axioms so that lit-vs-symbolic length reasoning works
 	it.strLenTerm(ta)
@@ -412,4 +429,35 @@ func (it *Interp) deepEqual(a, b Val) *Term {
 	}
 	it.fail("deepEqual on %T", a)
 	return nil
+}
+
+
+// leading returns the known leading bytes of a string value (-1 for a symbolic byte), whether the whole string is
+// covered, and whether anything is known at all.
+func (it *Interp) leading(s *StrV) ([]int, bool, bool) {
+	if s.Boxed != nil {
+		return nil, false, false
+	}
+	if isPlainB(s) {
+		out := make([]int, len(s.Bytes))
+		for i, b := range s.Bytes {
+			out[i] = -1
+			if b.IsConst() {
+				out[i] = int(b.val.Int64())
+			}
+		}
+		return out, true, true
+	}
+	if s.T == nil {
+		return nil, false, false
+	}
+	kp, complete := it.knownPrefix(s.T)
+	if len(kp) == 0 && !complete {
+		return nil, false, false
+	}
+	out := make([]int, len(kp))
+	for i := 0; i < len(kp); i++ {
+		out[i] = int(kp[i])
+	}
+	return out, complete, true
 }
